@@ -456,3 +456,35 @@ Theorem C08_cargo_accepts_refuted :
   exists s : bytes, Cargo.SpecFacts.sp_valid s = true /\ v_show Cargo.Entry.v s = None.
 Proof. exact Cargo.SpecFacts.cargo_accepts_spec_valid_refuted. Qed.
 Print Assumptions C08_cargo_accepts_refuted.
+
+(* ====== ties to the source: BEGIN (written by bin/mkties) ====== *)
+(* The Go functions named here are translated into Gallina from /repo's source on every run
+   (tools/gen/code.go -> Gen/Code/<Eco>.v); Tie/<Eco>.v, Tie/<Eco>Range.v prove each translation equal to the
+   model the theorems above speak about.  If the code changes so that a tie no longer holds,
+   this file no longer checks. *)
+From Verif.Tie Require Npm Cargo Semver Nuget Hex Golang.
+Definition C08_tie_npm_compareInt := Verif.Tie.Npm.tie_npm_compareInt.
+Print Assumptions C08_tie_npm_compareInt.
+Definition C08_tie_npm_compare := Verif.Tie.Npm.tie_npm_compare.
+Print Assumptions C08_tie_npm_compare.
+Definition C08_tie_cargo_compareInt := Verif.Tie.Cargo.tie_cargo_compareInt.
+Print Assumptions C08_tie_cargo_compareInt.
+Definition C08_tie_cargo_compare := Verif.Tie.Cargo.tie_cargo_compare.
+Print Assumptions C08_tie_cargo_compare.
+Definition C08_tie_semver_compareInt := Verif.Tie.Semver.tie_semver_compareInt.
+Print Assumptions C08_tie_semver_compareInt.
+Definition C08_tie_semver_compare := Verif.Tie.Semver.tie_semver_compare.
+Print Assumptions C08_tie_semver_compare.
+Definition C08_tie_nuget_compareInt := Verif.Tie.Nuget.tie_nuget_compareInt.
+Print Assumptions C08_tie_nuget_compareInt.
+Definition C08_tie_nuget_compare := Verif.Tie.Nuget.tie_nuget_compare.
+Print Assumptions C08_tie_nuget_compare.
+Definition C08_tie_hex_compareInt := Verif.Tie.Hex.tie_hex_compareInt.
+Print Assumptions C08_tie_hex_compareInt.
+Definition C08_tie_hex_compare := Verif.Tie.Hex.tie_hex_compare.
+Print Assumptions C08_tie_hex_compare.
+Definition C08_tie_golang_compareInt := Verif.Tie.Golang.tie_golang_compareInt.
+Print Assumptions C08_tie_golang_compareInt.
+Definition C08_tie_golang_Version_Compare := Verif.Tie.Golang.tie_golang_Version_Compare.
+Print Assumptions C08_tie_golang_Version_Compare.
+(* ====== ties to the source: END ====== *)
